@@ -19,8 +19,16 @@ Three layers, all on every run:
    (b) final layout bijective, (c) operator  out = P . in  by exact integer simulation
    (Gaussian-integer Unitary gates + exact named gates), (d) wire names kept, final
    measurements on the same logical qubits / registers.
+4. histories (long-lived objects; C09/PropsAttrs.v): (a) circuits whose wire names were set / reset (constructor,
+   setter, None) and that were copied / deep-copied / added before routing: the attribute state is compared with
+   the Coq model "history = fresh circuit with the last assigned names" (live names and the names of
+   Circuit(**init_kwargs)) and the routed output with the live names; (b) ONE router object reused, with the
+   connectivity re-assigned (must behave like a fresh router) and NOT re-assigned (default-ordered names proved and
+   checked harmless; after permuted names = known finding reused_no_reassign); (c) deep snapshots of every input
+   (circuit attributes, init_kwargs, gate objects, graph) before / after each call, outputs of earlier calls
+   re-compared after later calls.
 """
-STATIC = ["C09/Props", "C09/ModelCheck", "C09/ModelDag", "C09/InstMat"]
+STATIC = ["C09/Props", "C09/ModelCheck", "C09/ModelDag", "C09/InstMat", "C09/PropsAttrs"]
 import itertools
 import json
 import os
@@ -201,12 +209,91 @@ def build_gate(g):
     return getattr(gates, kind)(*qs)
 
 
-def build_circuit(spec):
+def _new_circuit(n, attr):
     from qibo import Circuit
-    c = Circuit(spec["n"], wire_names=list(spec["wire_names"]))
-    for g in spec["gates"]:
-        c.add(build_gate(g))
+    return Circuit(n, wire_names=None if attr["ctor"] is None else list(attr["ctor"]),
+                   density_matrix=bool(attr.get("dm", False)))
+
+
+def _apply_history(c, attr, gs, mk=None):
+    """gates interleaved with the wire-name assignments [pos, names|None] (pos = number of gates
+    added before the assignment)"""
+    ops = sorted(attr["ops"], key=lambda o: o[0])
+    j = 0
+    for i, g in enumerate(gs):
+        while j < len(ops) and ops[j][0] <= i:
+            c.wire_names = None if ops[j][1] is None else list(ops[j][1])
+            j += 1
+        c.add((mk or build_gate)(g))
+    while j < len(ops):
+        c.wire_names = None if ops[j][1] is None else list(ops[j][1])
+        j += 1
     return c
+
+
+def build_circuit(spec, raw=None, mk=None):
+    """spec["attr"] (optional) = history of attribute operations on the circuit object before it is
+    routed: {"ctor": names|None, "dm": bool, "ops": [[pos, names|None], ...], "derive": None|"copy"|
+    "deepcopy"|"add"}; the live wire names after the history are spec["wire_names"].
+    raw: list receiving the circuit objects that carry the history (before derive)"""
+    from qibo import Circuit
+    attr = spec.get("attr")
+    n = spec["n"] if "n" in spec else spec["k"]
+    mk = mk or build_gate
+    if not attr:
+        c = Circuit(n, wire_names=list(spec["wire_names"]))
+        for g in spec["gates"]:
+            c.add(mk(g))
+        return c
+    gs = spec["gates"]
+    derive = attr.get("derive")
+    if derive == "add":
+        h = attr.get("split", len(gs) // 2)
+        c1 = _apply_history(_new_circuit(n, attr), attr, gs[:h], mk)
+        c2 = _apply_history(_new_circuit(n, attr), attr, gs[h:], mk)
+        if raw is not None:
+            raw += [c1, c2]
+        c = c1 + c2
+    else:
+        c0 = _apply_history(_new_circuit(n, attr), attr, gs, mk)
+        if raw is not None:
+            raw.append(c0)
+        c = c0 if not derive else c0.copy(deep=(derive == "deepcopy"))
+    return c
+
+
+def gate_full_canon(g):
+    """structural snapshot of one gate object (everything a caller can observe)"""
+    from qibo import gates
+    ps = []
+    for x in getattr(g, "parameters", ()) or ():
+        a = np.asarray(x)
+        ps.append((str(a.dtype), a.shape, a.tobytes()))
+    kw = json.dumps({k: v for k, v in g.init_kwargs.items()}, sort_keys=True, default=str)
+    extra = ()
+    if isinstance(g, gates.M):
+        extra = (g.register_name, bool(g.collapse), tuple(b.__name__ if isinstance(b, type) else str(b) for b in (g.basis_gates if hasattr(g, "basis_gates") else ())))
+    if isinstance(g, gates.Unitary):
+        a0 = np.asarray(g.init_args[0])
+        extra = (a0.tobytes(),)
+    return (type(g).__name__, g.name, tuple(g.qubits), tuple(g.control_qubits), tuple(g.target_qubits), tuple(ps), kw, extra)
+
+
+def circ_snapshot(c):
+    """deep structural snapshot of a circuit: attributes, init_kwargs, the gate objects (identity and content)"""
+    return dict(n=c.nqubits, wires=list(c.wire_names), dm=bool(c.density_matrix),
+                kw={k: (list(v) if isinstance(v, list) else v) for k, v in c.init_kwargs.items()},
+                ids=[id(g) for g in c.queue], queue=[gate_full_canon(g) for g in c.queue],
+                meas=[(id(m), m.register_name, tuple(m.qubits)) for m in c.measurements])
+
+
+def snapshot_diff(a, b):
+    return [k for k in a if a[k] != b[k]]
+
+
+def graph_snapshot(g):
+    return ([(repr(v), sorted(d.items())) for v, d in g.nodes(data=True)],
+            [(repr(a), repr(b), sorted(d.items())) for a, b, d in g.edges(data=True)])
 
 
 def build_graph(spec):
@@ -355,19 +442,24 @@ class Tracer:
         return [e[1:] for e in self.events if e[0] == id(circuit_map)]
 
 
-def run_router(spec, timeout=20.0, router=None):
+def run_router(spec, timeout=20.0, router=None, reassign=True):
     """returns dict with routed circuit, final layout, trace, initial blocks (None for star).
     router = an existing router object to REUSE: its connectivity is (re)assigned before the call,
-    exactly as Passes.__call__ / a user switching devices does"""
+    exactly as Passes.__call__ / a user switching devices does (reassign=False: the router object
+    is simply called again, it keeps whatever connectivity attribute the previous call left)"""
     from qibo.transpiler import router as R
     graph = build_graph(spec)
-    circuit = build_circuit(spec)
+    raw = []
+    circuit = build_circuit(spec, raw=raw)
     before = queue_canon(circuit)
     if router is None:
         router = build_router(spec, graph)
-    else:
+    elif reassign:
         router.connectivity = graph
-    info = {"circuit": circuit, "graph": graph, "router": router, "before": before}
+    info = {"circuit": circuit, "graph": graph, "router": router, "before": before, "raw": raw}
+    info["snap_before"] = circ_snapshot(circuit)
+    info["raw_before"] = [circ_snapshot(c) for c in raw]
+    info["graph_before"] = graph_snapshot(graph)
     captured = {}
     orig_init = R.CircuitMap.__init__
 
@@ -397,7 +489,25 @@ def run_router(spec, timeout=20.0, router=None):
     finally:
         R.CircuitMap.__init__ = orig_init
     info["after"] = queue_canon(circuit)
+    info["snap_after"] = circ_snapshot(circuit)
+    info["raw_after"] = [circ_snapshot(c) for c in raw]
+    info["graph_after"] = graph_snapshot(graph)
+    if "routed" in info:
+        info["out_snap"] = (circ_snapshot(info["routed"]), sorted((repr(k), v) for k, v in info["layout"].items())
+                            if isinstance(info["layout"], dict) else repr(info["layout"]))
     return info
+
+
+def output_changed(info):
+    """the routed circuit / final layout returned by an EARLIER call must not change afterwards"""
+    if "out_snap" not in info:
+        return None
+    now = (circ_snapshot(info["routed"]), sorted((repr(k), v) for k, v in info["layout"].items())
+           if isinstance(info["layout"], dict) else repr(info["layout"]))
+    if now != info["out_snap"]:
+        d = snapshot_diff(info["out_snap"][0], now[0]) + (["final_layout"] if now[1] != info["out_snap"][1] else [])
+        return d
+    return None
 
 
 # ------------------------------------------------------------------ spec-level checks (a)-(d)
@@ -418,9 +528,20 @@ def spec_checks(spec, info):
         return [(key, f"router raised {info['error']}", {"error": info["error"]})]
     routed, layout = info["routed"], info["layout"]
     wn = list(circuit.wire_names)
-    # input must not be mutated
+    # inputs must not be mutated (deep snapshot: attributes, init_kwargs, gate objects, the graph)
     if info["before"] != info["after"]:
         bad.append((f"mutates_input:{rname}", "the router changed the input circuit's queue", {}))
+    elif "snap_before" in info:
+        d = snapshot_diff(info["snap_before"], info["snap_after"])
+        for b_, a_ in zip(info.get("raw_before", []), info.get("raw_after", [])):
+            d += snapshot_diff(b_, a_)
+        if d:
+            bad.append((f"mutates_input:{rname}", f"the router changed the input circuit (fields {sorted(set(d))})", {"fields": sorted(set(d))}))
+    if info.get("graph_before") != info.get("graph_after"):
+        bad.append((f"mutates_graph:{rname}", "the router changed the connectivity graph object it was given", {}))
+    if bool(routed.density_matrix) != bool(circuit.density_matrix):
+        # not part of the property text (the operator is unaffected): recorded, not reported
+        info["dm_flag_dropped"] = True
     # (d) wire names kept
     if list(routed.wire_names) != wn or routed.nqubits != n:
         bad.append((f"wire_names:{rname}", f"wire names changed: {wn} -> {routed.wire_names}", {}))
@@ -460,7 +581,7 @@ def spec_checks(spec, info):
         pass
     # cross-check of the harness simulator against the real numpy backend (measurement-free circuits)
     try:
-        if not any(isinstance(g, gates.M) for g in routed.queue) and n <= 6:
+        if not any(isinstance(g, gates.M) for g in routed.queue) and n <= 6 and not routed.density_matrix:
             from qibo.backends import NumpyBackend
             rs = np.random.RandomState(len(routed.queue) * 7919 + n)
             psi = (rs.randint(-3, 4, 2 ** n) + 1j * rs.randint(-3, 4, 2 ** n)).astype(complex)
@@ -786,11 +907,187 @@ def router_histories(tier, rng):
     return out
 
 
+def noreassign_histories(tier, rng):
+    """ONE router object built with its graph and then simply CALLED several times (the connectivity is not
+    assigned again) on circuits whose wire names are the integers 0..n-1 in default or permuted order.
+    Sabre / ShortestPaths overwrite self.connectivity with the relabelled graph (known finding
+    reused_no_reassign): calls after a call with non-default order are 'tainted'"""
+    out = []
+    line5 = nx.path_graph(5)
+    for kind, rkw in (("Sabre", {"seed": 0}), ("ShortestPaths", {"seed": 0})):
+        gs = [["CZ", [0, 1], {}], ["CZ", [1, 4], {}], ["CZ", [0, 3], {}]]
+        out.append({"router": [kind, rkw], "reassign": False,
+                    "calls": [mk_spec(line5, [2, 0, 1, 3, 4], gs, [kind, rkw]) for _ in range(2)]})
+    nh = 30 if tier == "quick" else 120
+    for h in range(nh):
+        kind = ("StarConnectivityRouter", "Sabre", "ShortestPaths")[h % 3]
+        n = 5 if kind == "StarConnectivityRouter" else rng.randint(3, 6)
+        rkw = {} if kind == "StarConnectivityRouter" else (sabre_kw(rng) if kind == "Sabre" else {"seed": rng.randrange(1000)})
+        base = nx.star_graph(4) if kind == "StarConnectivityRouter" else rng.choice([nx.path_graph(n), nx.cycle_graph(n), nx.star_graph(n - 1)])
+        g = _relabel(base, rng.sample(range(n), n))
+        ncalls = rng.randint(2, 4)
+        first_perm = rng.randint(1, ncalls)           # calls before this index use the default order
+        calls = []
+        for c in range(ncalls):
+            wn = list(range(n))
+            if c >= first_perm or (kind == "StarConnectivityRouter" and rng.random() < 0.7):
+                rng.shuffle(wn)
+            gs = gen_gates(rng, n, rng.randint(2, 9), pmid=0, style=rng.choice(["mixed", "far", "hot"]))
+            if rng.random() < 0.5:
+                gs += gen_trailing(rng, n)
+            calls.append(mk_spec(g, wn, gs, [kind, rkw]))
+        out.append({"router": [kind, rkw], "reassign": False, "calls": calls})
+    return out
+
+
 def run_router_history(hspec, timeout=20.0):
-    """[(spec, info)]: the calls of one router object; connectivity re-assigned before each call"""
+    """[(spec, info)]: the calls of one router object; connectivity re-assigned before each call
+    (hspec["reassign"] False: built once with the graph of the first call, then only called).
+    info["tainted"]: an earlier call of a non-reassigned Sabre/ShortestPaths had non-default wire-name order;
+    info["later_change"]: fields of this call's OUTPUT that changed during later calls"""
     first = hspec["calls"][0]
     router = build_router(first, build_graph(first))
-    return [(sp, run_router(sp, timeout=timeout, router=router)) for sp in hspec["calls"]]
+    reassign = hspec.get("reassign", True)
+    res = []
+    tainted = False
+    for sp in hspec["calls"]:
+        info = run_router(sp, timeout=timeout, router=router, reassign=reassign)
+        info["tainted"] = tainted
+        if not reassign and sp["router"][0] != "StarConnectivityRouter" and list(sp["wire_names"]) != list(range(sp["n"])):
+            tainted = True
+        res.append((sp, info))
+    for sp, info in res:
+        info["later_change"] = output_changed(info)
+    return res
+
+
+# ------------------------------------------------------------------ attribute histories (family A / E)
+def _other_names(rng, n, final):
+    """a name list different from the final one: strings, fresh integers, or a permutation of the final names"""
+    r = rng.random()
+    if r < 0.35:
+        return [f"{'ABCDEFGH'[i]}" for i in rng.sample(range(8), n)]
+    if r < 0.6:
+        return rng.sample(range(50, 50 + 3 * n), n)
+    w = list(final)
+    rng.shuffle(w)
+    return w
+
+
+def attr_history(rng, n, final, ngates, must_reset=False):
+    """a history of attribute operations ending with live names == final.  final == list(range(n)) allows
+    (and with must_reset forces) the history to END with `circuit.wire_names = None` after custom names"""
+    can_none = list(final) == list(range(n))
+    ops = []
+    end_none = can_none and (must_reset or rng.random() < 0.6)
+    ctor = rng.choice([None, _other_names(rng, n, final), list(final)])
+    if end_none and ctor is None and rng.random() < 0.8:
+        ctor = _other_names(rng, n, final)
+    for _ in range(rng.randint(0, 2)):
+        ops.append([rng.randint(0, ngates), rng.choice([None, _other_names(rng, n, final)])])
+    if end_none:
+        if ctor is None and not any(o[1] is not None for o in ops):
+            ops.append([rng.randint(0, ngates), _other_names(rng, n, final)])
+        ops.append([rng.choice([ngates, rng.randint(0, ngates)]), None])
+    else:
+        ops.append([rng.choice([ngates, rng.randint(0, ngates)]), list(final)])
+    # the last assignment (in application order) must be the final one
+    last = ops[-1]
+    ops = [o for o in ops[:-1] if o[0] <= last[0]] + [last]
+    return {"ctor": ctor, "dm": rng.random() < 0.25, "ops": ops,
+            "derive": rng.choice([None, None, "copy", "deepcopy", "add"]), "split": rng.randint(0, ngates)}
+
+
+def attr_cases(tier, rng):
+    """circuits whose attributes were set / reset before routing; every router; graphs over the integers
+    0..n-1 (so that default names are legal) and over other labels"""
+    out = []
+    routers = lambda: (["Sabre", sabre_kw(rng)], ["ShortestPaths", {"seed": rng.randrange(1000)}])
+    # deterministic corpus: custom names then reset to None / replaced / set after default, each derive mode
+    line4 = nx.path_graph(4)
+    gs0 = [["X", [0], {}], ["CNOT", [0, 3], {}], ["S", [2], {}], ["CZ", [1, 3], {}], ["M", [0, 3], {"register_name": "out"}]]
+    for derive in (None, "copy", "deepcopy", "add"):
+        for ctor, ops in ((["A", "B", "C", "D"], [[5, None]]), (None, [[0, ["A", "B", "C", "D"]], [2, None]]),
+                          ([3, 1, 2, 0], [[1, None]]), (["A", "B", "C", "D"], [[3, [3, 2, 1, 0]], [5, None]])):
+            for r in (["Sabre", {"seed": 0}], ["ShortestPaths", {"seed": 0}]):
+                sp = mk_spec(line4, [0, 1, 2, 3], gs0, r)
+                sp["attr"] = {"ctor": ctor, "dm": False, "ops": ops, "derive": derive, "split": 2}
+                out.append(("attr", sp))
+    star = nx.star_graph(4)
+    gs1 = [["CZ", [1, 2], {}], ["X", [3], {}], ["CNOT", [3, 4], {}], ["M", [2, 1], {"register_name": "o"}]]
+    for derive in (None, "deepcopy", "add"):
+        sp = mk_spec(star, [0, 1, 2, 3, 4], gs1, ["StarConnectivityRouter", {}])
+        sp["attr"] = {"ctor": ["a", "b", "c", "d", "e"], "dm": False, "ops": [[4, None]], "derive": derive, "split": 2}
+        out.append(("attr", sp))
+    nrand = 90 if tier == "quick" else 400
+    for k in range(nrand):
+        kind = k % 3
+        if kind == 2:
+            g0 = _relabel(star, rng.sample(range(5), 5))
+            router = ["StarConnectivityRouter", {}]
+        else:
+            n0 = rng.randint(3, 6)
+            g0 = rng.choice([nx.path_graph(n0), nx.cycle_graph(n0), nx.star_graph(n0 - 1)])
+            g0 = _relabel(g0, rng.sample(range(n0), n0))
+            router = routers()[kind]
+        n = g0.number_of_nodes()
+        if k % 2 == 0:
+            g, wn = g0, list(range(n))              # live names are the default ones at routing time
+        else:
+            g = label_variants(g0, rng, rng.choice(["perm", "sparse", "str", "mixed"]))
+            wn = list(g.nodes())
+            rng.shuffle(wn)
+        gs = gen_gates(rng, n, rng.randint(2, 10), pmid=0, style=rng.choice(["mixed", "far", "hot"]))
+        if rng.random() < 0.6:
+            gs += gen_trailing(rng, n)
+        sp = mk_spec(g, wn, gs, router)
+        sp["attr"] = attr_history(rng, n, wn, len(gs), must_reset=(k % 4 == 0))
+        if sp["attr"]["derive"] == "add":
+            # trailing measurements must stay in the second summand
+            nb = len([x for x in gs if not (x[0] == "M")])
+            sp["attr"]["split"] = min(sp["attr"]["split"], nb)
+        out.append(("attr", sp))
+    return out
+
+
+def _num(label, table):
+    """integer labels are themselves (the default names are the integers 0..n-1), other labels are numbered from 1000"""
+    if isinstance(label, (int, np.integer)) and not isinstance(label, bool):
+        return int(label)
+    if label not in table:
+        table[label] = 1000 + len(table)
+    return table[label]
+
+
+def attr_correspondence(run, items, found, stats):
+    """model of the circuit attribute state (C09/ModelAttrs.v) vs. the real Circuit object after the history:
+    live wire names and the names of Circuit(**init_kwargs)"""
+    from qibo import Circuit
+    exprs, expect = [], []
+    for spec, info in items:
+        attr = spec["attr"]
+        table = {}
+        opt = lambda w: "None" if w is None else f"(Some {nl([_num(x, table) for x in w])})"
+        ops = sorted(attr["ops"], key=lambda o: o[0])
+        for c in info["raw"]:
+            exprs.append(f"attrs_after {spec['n']} {opt(attr['ctor'])} [{'; '.join(opt(o[1]) for o in ops)}]")
+            reb = Circuit(**c.init_kwargs)
+            expect.append((spec, [_num(x, table) for x in c.wire_names], [_num(x, table) for x in reb.wire_names]))
+    CH = 400
+    for b in range(0, len(exprs), CH):
+        vals = run.coq_eval(f"C09_attrs_{b // CH}.v", HEADER.replace("C09.ModelDag.", "C09.ModelDag C09.ModelAttrs."), exprs[b:b + CH], timeout=300)
+        run.oblige(f"model_attrs_{b // CH}", vals is not None, "correspondence")
+        if vals is None:
+            run.find(f"coq:C09_attrs_{b // CH}", "generated correspondence file does not compile", concrete=False)
+            continue
+        for v, (spec, live, reb) in zip(vals, expect[b:b + CH]):
+            mlive, mreb = parse_coq(v)
+            stats["attr_states_compared"] = stats.get("attr_states_compared", 0) + 1
+            if list(mlive) != live or list(mreb) != reb:
+                found.setdefault("attrs:init_kwargs_out_of_sync",
+                                 (f"after the attribute history the circuit has wire names {live} and Circuit(**init_kwargs) has {reb}; "
+                                  f"the model (history = fresh circuit with the last assigned names) says {list(mlive)} / {list(mreb)}",
+                                  {"spec": spec}))
 
 
 def classify(spec):
@@ -811,7 +1108,10 @@ def classify(spec):
 RULE = ("cases = (connectivity graph family x node relabelling x wire-name permutation x random/adversarial "
         "circuit of exact 1- and 2-qubit gates with mid-circuit and trailing measurements x router x router "
         "settings); a case is non-trivial when the router inserted at least one SWAP or reordered gates; "
-        "distinct = distinct (graph, wire names, circuit, router settings)")
+        "distinct = distinct (graph, wire names, circuit, router settings); plus histories: one router object reused "
+        "(connectivity re-assigned / not re-assigned), circuits whose wire names / density_matrix flag were set and reset "
+        "(constructor, setter, None) and that were copied / deep-copied / added before routing; inputs deep-snapshotted "
+        "before and after every call, outputs of earlier calls re-compared after later calls")
 
 
 def theorem_obligations(run, theory="C09/Props"):
@@ -831,6 +1131,20 @@ def theorem_obligations(run, theory="C09/Props"):
     run.notes.setdefault("print_assumptions", {}).update(res)
 
 
+def history_checks(spec, info):
+    """spec_checks + the checks that only make sense inside a multi-call history"""
+    rname = spec["router"][0]
+    bad = spec_checks(spec, info)
+    if info.get("later_change"):
+        bad.append((f"output_changed_by_later_call:{rname}",
+                    f"the routed circuit / final layout returned by this call changed during LATER calls of the same router object (fields {info['later_change']})", {}))
+    if info.get("tainted"):
+        # known finding: Sabre/ShortestPaths overwrite self.connectivity; every failure of such a call is filed under one key
+        bad = [(f"reused_no_reassign:{rname}", "router object called again WITHOUT re-assigning its connectivity after a call with "
+                "non-default wire-name order: " + w, e) for (k, w, e) in bad if not k.startswith("timeout:")]
+    return bad
+
+
 def process(run, cases, label, found, stats, timeout, infos=None, hist_of=None):
     """run the real routers, spec checks, and collect Coq terms.
     infos / hist_of: precomputed runs of multi-call histories (one router object reused)"""
@@ -839,7 +1153,9 @@ def process(run, cases, label, found, stats, timeout, infos=None, hist_of=None):
         info = infos[id(spec)] if infos is not None else run_router(spec, timeout=timeout)
         rname = spec["router"][0]
         stats[rname] = stats.get(rname, 0) + 1
-        bad = spec_checks(spec, info)
+        bad = history_checks(spec, info)
+        if info.get("dm_flag_dropped"):
+            stats[f"density_matrix_flag_not_kept(outside the property text):{rname}"] = stats.get(f"density_matrix_flag_not_kept(outside the property text):{rname}", 0) + 1
         nontrivial = False
         if "routed" in info:
             nsw = len(info["routed"].queue) - len(info["circuit"].queue)
@@ -847,7 +1163,7 @@ def process(run, cases, label, found, stats, timeout, infos=None, hist_of=None):
             stats["swaps"] = stats.get("swaps", 0) + max(nsw, 0)
             if info.get("backend_checked"):
                 stats["routed_circuits_also_run_on_real_backend"] = stats.get("routed_circuits_also_run_on_real_backend", 0) + 1
-        run.case([spec["nodes"], spec["edges"], spec["wire_names"], spec["gates"], spec["router"]], nontrivial)
+        run.case([spec["nodes"], spec["edges"], spec["wire_names"], spec["gates"], spec["router"]] + ([spec["attr"]] if spec.get("attr") else []), nontrivial)
         if len(run.samples) < 4 and nontrivial and len(spec["gates"]) <= 8:
             run.sample({"graph": nm, "spec": spec, "final_layout": str(info.get("layout")),
                         "routed": [[g.name, list(g.qubits)] for g in info["routed"].queue]})
@@ -858,10 +1174,12 @@ def process(run, cases, label, found, stats, timeout, infos=None, hist_of=None):
             if key not in found:
                 hx = hist_of.get(id(spec), {}) if hist_of else {}
                 if hx:
-                    what = what + f" [call {hx['call_index']} of a history reusing ONE router object with the connectivity re-assigned]"
+                    what = what + (f" [call {hx['call_index']} of a history reusing ONE router object with the connectivity re-assigned]"
+                                   if hx["router_history"].get("reassign", True) else
+                                   f" [call {hx['call_index']} of a history calling ONE router object repeatedly]")
                 found[key] = (what, {"spec": spec, "graph": nm, **extra, **hx})
         terms = None
-        if classify(spec) == "meas_basis":
+        if classify(spec) == "meas_basis" or info.get("tainted"):
             pass      # basis rotations are re-inserted by Circuit.add / copy: outside the router model
         elif rname == "StarConnectivityRouter":
             if "routed" in info:
@@ -1005,6 +1323,7 @@ def main(run):
                         "floating-point rounding is irrelevant: all compared data are integers / structures"]
     theorem_obligations(run)
     theorem_obligations(run, "C09/InstMat")     # routing_ok at the concrete dense matrices of Base/Mat.v
+    theorem_obligations(run, "C09/PropsAttrs")  # circuit attribute histories = fresh circuit; reused router connectivity
     run.notes["interpretation_instance"] = ("PROVED (C09/InstMat.v, Base/Sem.v, Base/SemPerm.v): qibo-style dense operators "
                                             "(embed of a gate matrix on its qubits, qubit-permutation matrices, SWAP for the inserted "
                                             "gate) form an `interp`: disjoint gates commute, permutation equivariance, tag 0 = SWAP; "
@@ -1015,8 +1334,12 @@ def main(run):
     pend = process(run, cases, "main", found, stats, t_lim)
     coq_batches(run, pend, "main", found, stats)
     hcases, infos, hist_of = [], {}, {}
-    for hspec in router_histories(run.tier, rng):
+    for hspec in router_histories(run.tier, rng) + noreassign_histories(run.tier, rng):
         for i, (sp, info) in enumerate(run_router_history(hspec, timeout=t_lim)):
+            if not hspec.get("reassign", True):
+                stats["calls_on_a_reused_router_not_reassigned"] = stats.get("calls_on_a_reused_router_not_reassigned", 0) + 1
+                if info.get("tainted"):
+                    stats["...of which after a call with permuted names (known finding)"] = stats.get("...of which after a call with permuted names (known finding)", 0) + 1
             hcases.append(("history", sp))
             infos[id(sp)] = info
             hist_of[id(sp)] = {"router_history": hspec, "call_index": i}
@@ -1025,6 +1348,12 @@ def main(run):
                 stats["calls_on_a_reused_router_with_changed_connectivity"] = stats.get("calls_on_a_reused_router_with_changed_connectivity", 0) + 1
     pend = process(run, hcases, "hist", found, stats, t_lim, infos=infos, hist_of=hist_of)
     coq_batches(run, pend, "hist", found, stats)
+    acases = attr_cases(run.tier, rng)
+    ainfos = {id(sp): run_router(sp, timeout=t_lim) for _, sp in acases}
+    stats["attribute_history_cases"] = len(acases)
+    pend = process(run, acases, "attrs", found, stats, t_lim, infos=ainfos)
+    coq_batches(run, pend, "attrs", found, stats)
+    attr_correspondence(run, [(sp, ainfos[id(sp)]) for _, sp in acases], found, stats)
     dcases = defect_cases(rng)
     pend = process(run, dcases, "defects", found, stats, t_lim)
     coq_batches(run, pend, "defects", found, stats)
@@ -1046,7 +1375,7 @@ def replay(run, data):
         anybad = False
         for i, (sp, info) in enumerate(run_router_history(hspec, timeout=60.0)):
             run.case([sp["edges"], sp["wire_names"], sp["gates"], sp["router"]])
-            for key, what, extra in spec_checks(sp, info):
+            for key, what, extra in history_checks(sp, info):
                 print(f"replay reproduces (call {i} of the router history):", key, what)
                 run.find(key, what, {"router_history": hspec, "call_index": i, **extra})
                 anybad = True
